@@ -63,6 +63,18 @@ func coqTx(bt *builtTx) string {
 	return fmt.Sprintf("mkTx %s %s %s %s %s %d %s %s", cb(bt.hash[:]), hlib.CoqBool(!bt.spec.BadChain),
 		hlib.CoqList(ins), hlib.CoqList(outs), cb(bt.spec.Data), bt.intrinsic, hlib.CoqBool(bt.spec.CheckSig), hlib.CoqBool(bt.sigOK))
 }
+func coqBools(bs []bool) string {
+	items := make([]string, len(bs))
+	for i, b := range bs {
+		items[i] = hlib.CoqBool(b)
+	}
+	return hlib.CoqList(items)
+}
+
+// poolBackends: pool scenarios run on one engine of each kind (the cache is backend independent; a real pool
+// with its goroutines is started per run)
+func poolBackends(bks []backend) []backend { return []backend{bks[0], bks[1], bks[2]} }
+
 func coqKeys(ks [][]byte) string {
 	items := make([]string, len(ks))
 	for i, k := range ks {
@@ -136,6 +148,9 @@ func sameJSON(a, b any) bool {
 //   worker-agrees  the list accepted by the worker (minus what the pool would refuse) is accepted by ProcessQiTx as one
 //                  block (checkSig=false) with the same fees/ETXs/outpoints, and that block passes all monitors above
 //                  (backend name "worker-block/<backend>"); see also monitorsWorker
+// Scenarios of kind "pool" (pool.go) put a real TxPool in front of the blocks: checkSig is then computed from the
+// pool's senders cache as StateProcessor.Process does, "authorised" demands a signature by the carried keys whatever
+// checkSig is, and monitorsPool checks the pool's admissions and the cache itself.
 
 func denVal(d uint8) *big.Int {
 	if v, ok := types.Denominations[d]; ok {
@@ -161,6 +176,13 @@ func monitorsProc(rep *hlib.Report, c caseJS, backendName string, s *Scenario, c
 		after := ledgerMap(bo.Ledger)
 		if bo.Panic != "" {
 			fail("panic", "ProcessQiTx panicked: "+bo.Panic)
+		}
+		if s.Blocks[bi].Gossip {
+			// a gossip phase only reads the database
+			if !sameJSON(before, after) {
+				fail("rejected-noop", fmt.Sprintf("gossip phase %d changed the UTXO records", bi))
+			}
+			continue
 		}
 		if !bo.OK {
 			if !sameJSON(before, after) {
@@ -199,8 +221,13 @@ func monitorsProc(rep *hlib.Report, c caseJS, backendName string, s *Scenario, c
 					fail("authorised", fmt.Sprintf("block %d tx %d input %d: entry locked until %s spent at height %d", bi, ti, ii, e.Lock, ctxs[bi].spec.Height))
 				}
 			}
-			if bt.spec.CheckSig && !bt.sigOK {
+			if bo.CheckSig == nil && bt.spec.CheckSig && !bt.sigOK {
 				fail("authorised", fmt.Sprintf("block %d tx %d accepted with checkSig although it was not signed by the keys it carries (%s)", bi, ti, bt.spec.Sign))
+			}
+			if bo.CheckSig != nil && !bt.sigOK {
+				// checkSig came from the node's own senders cache, as in StateProcessor.Process: whatever the pool saw
+				// before, a transaction that is not signed by the keys it carries must not be accepted
+				fail("authorised", fmt.Sprintf("block %d tx %d accepted (checkSig=%v from the pool's senders cache) although it was not signed by the keys it carries (%s)", bi, ti, bo.CheckSig[ti], bt.spec.Sign))
 			}
 			// outputs as the DB shows them: local ones are the records tx.Hash()++index
 			local := big.NewInt(0)
@@ -320,6 +347,81 @@ func monitorsWorker(rep *hlib.Report, c caseJS, s *Scenario, ctx *builtCtx, txs 
 	}
 }
 
+// monitorsPool: the senders cache as part of the authorisation path, evaluated on what the REAL pool did with
+// the gossiped transactions (the database is the one the blocks are processed on):
+//   authorised site=pool-admission     a transaction the pool admits (AddRemotes/AddLocals return nil, or it is reinjected
+//                                      after a reorganisation) is signed by exactly the keys it carries and every input names
+//                                      an existing, unlocked entry owned by the address of the key that input carries
+//   cache-only-verified site=pool      a hash is in the senders cache (which makes Process skip the signature check) only
+//                                      if a transaction with that hash was admitted, and never for a transaction that is
+//                                      not signed by the keys it carries or whose inputs it does not own
+func monitorsPool(rep *hlib.Report, c caseJS, backendName string, s *Scenario, ctxs []*builtCtx, txs [][]*builtTx, obs []BlockObs) {
+	fail := func(mon, what string) {
+		rep.Fail(fmt.Sprintf("monitor=%s backend=%s", mon, backendName), fmt.Sprintf("scenario %q: %s", s.Name, what), c)
+	}
+	pctx := firstGossipCtx(s, ctxs)
+	before := ledgerMap(baseEntries(s))
+	admitted := map[string]bool{}
+	for bi, bo := range obs {
+		g := bo.Gossip
+		if !s.Blocks[bi].Gossip {
+			before = ledgerMap(bo.Ledger)
+			continue
+		}
+		if bo.Panic != "" || g == nil {
+			fail("panic site=pool", "the pool panicked: "+bo.Panic)
+			continue
+		}
+		if g.Stall {
+			fail("stall site=pool", fmt.Sprintf("gossip phase %d: the senders cache writer did not catch up", bi))
+		}
+		owns := func(bt *builtTx) string {
+			for ii, k := range bt.inKeys {
+				e, ok := before[string(k)]
+				if !ok {
+					return fmt.Sprintf("input %d names outpoint %x which is not in the database", ii, k)
+				}
+				lock, _ := new(big.Int).SetString(e.Lock, 10)
+				if !bytes.Equal(e.Owner, bt.pkAddrs[ii]) {
+					return fmt.Sprintf("input %d: key address %x is not the owner %x", ii, bt.pkAddrs[ii], e.Owner)
+				}
+				if lock.Cmp(new(big.Int).SetUint64(pctx.spec.Height)) > 0 {
+					return fmt.Sprintf("input %d: entry locked until %s at height %d", ii, e.Lock, pctx.spec.Height)
+				}
+			}
+			if len(bt.inKeys) == 0 {
+				return "no inputs"
+			}
+			return ""
+		}
+		for i, bt := range txs[bi] {
+			if i < len(g.Admitted) && g.Admitted[i] {
+				admitted[string(bt.hash[:])] = true
+				if !bt.sigOK {
+					fail("authorised site=pool-admission", fmt.Sprintf("gossip phase %d: the pool admits tx %d (via %q) which is not signed by the keys it carries (%s)", bi, i, bt.spec.Via, bt.spec.Sign))
+				}
+				if why := owns(bt); why != "" {
+					fail("authorised site=pool-admission", fmt.Sprintf("gossip phase %d: the pool admits tx %d (via %q): %s", bi, i, bt.spec.Via, why))
+				}
+			}
+		}
+		for i, bt := range txs[bi] {
+			if i < len(g.InPool) && g.InPool[i] && !bt.sigOK {
+				fail("authorised site=pool-admission", fmt.Sprintf("gossip phase %d: tx %d (%s) sits in the Qi pool although it is not signed by the keys it carries", bi, i, bt.spec.Sign))
+			}
+			if i >= len(g.Cached) || !g.Cached[i] {
+				continue
+			}
+			switch {
+			case !bt.sigOK:
+				fail("cache-only-verified site=pool", fmt.Sprintf("gossip phase %d: the hash of tx %d is in the senders cache (= signature verified, Process will not check it) although the transaction is not signed by the keys it carries (%s)", bi, i, bt.spec.Sign))
+			case !admitted[string(bt.hash[:])]:
+				fail("cache-only-verified site=pool", fmt.Sprintf("gossip phase %d: the hash of tx %d is in the senders cache although the pool never admitted that transaction", bi, i))
+			}
+		}
+	}
+}
+
 func qiWrappingChangeBlock() uint64 { return params.QiWrappingChangeBlock }
 
 // ---------- main ----------
@@ -419,6 +521,92 @@ func runScenario(rep *hlib.Report, cw *hlib.CaseWriter, s *Scenario, id int, bks
 			obsCoq[i] = hlib.CoqList(bl)
 		}
 		cw.Add(fmt.Sprintf("(%d, CProc %s %s %s %s)", id, hlib.CoqBool(s.Tracks), coqLedger(baseEntries(s)), hlib.CoqList(blocksCoq), hlib.CoqList(obsCoq)), c)
+	case "pool":
+		c.Proc = map[string][]BlockObs{}
+		pbk := poolBackends(bks)
+		var first []BlockObs
+		for bi, bk := range pbk {
+			db, closeFn := bk.open(tmp)
+			obs := runProc(db, s, mkCtxs(), txs)
+			closeFn()
+			c.Proc[bk.name] = obs
+			rep.TracesValidated++
+			if bi == 0 {
+				first = obs
+			}
+		}
+		for _, bk := range pbk {
+			obs := c.Proc[bk.name]
+			monitorsPool(rep, c, bk.name, s, ctxs, txs, obs)
+			monitorsProc(rep, c, bk.name, s, ctxs, txs, obs)
+			if !sameJSON(obs, first) {
+				rep.Fail(fmt.Sprintf("monitor=backends-agree backend=%s", bk.name),
+					fmt.Sprintf("scenario %q: %s and %s disagree on pool verdicts / cache / block effects", s.Name, bk.name, pbk[0].name), c)
+			}
+		}
+		nacc, ncached, nforgedSeen := 0, 0, 0
+		steps := make([]string, len(s.Blocks))
+		for bi, bo := range first {
+			ts := make([]string, len(txs[bi]))
+			for i, bt := range txs[bi] {
+				ts[i] = coqTx(bt)
+			}
+			if s.Blocks[bi].Gossip {
+				g := bo.Gossip
+				if g == nil {
+					g = &GossipObs{}
+				}
+				for i, bt := range txs[bi] {
+					rep.Count("gossip-via:" + bt.spec.Via)
+					if i < len(g.Cached) && g.Cached[i] {
+						ncached++
+					}
+					if !bt.sigOK {
+						nforgedSeen++
+						rep.Count("gossip:not signed by the carried keys (" + bt.spec.Sign + ")")
+					}
+					if i < len(g.Admitted) && g.Admitted[i] {
+						rep.Count("gossip:admitted")
+					} else {
+						rep.Count("gossip:refused")
+					}
+				}
+				steps[bi] = fmt.Sprintf("PGossip (%s) %s %s %s", coqCtx(firstGossipCtx(s, ctxs)), hlib.CoqList(ts), coqBools(g.Admitted), coqBools(g.Cached))
+				continue
+			}
+			if bo.OK {
+				rep.Count("pool-block:accepted")
+			} else {
+				rep.Count("pool-block:rejected")
+				rep.Count("reject:" + errBucket(bo.Err))
+			}
+			nacc += len(bo.Txs)
+			for ti := range txs[bi] {
+				if ti < len(bo.CheckSig) && !bo.CheckSig[ti] {
+					rep.Count("pool-block-tx:checkSig=false (cache hit)")
+				} else {
+					rep.Count("pool-block-tx:checkSig=true")
+				}
+			}
+			var distinct []string
+			seen := map[string]bool{}
+			for _, bk := range pbk {
+				o := c.Proc[bk.name]
+				if bi >= len(o) {
+					continue
+				}
+				t := coqBlockObs(o[bi])
+				if !seen[t] {
+					seen[t] = true
+					distinct = append(distinct, t)
+				}
+			}
+			steps[bi] = fmt.Sprintf("PBlock (%s) %s %s %s", coqCtx(ctxs[bi]), hlib.CoqList(ts), coqBools(bo.CheckSig), hlib.CoqList(distinct))
+		}
+		if nacc > 0 && ncached > 0 || nforgedSeen > 0 {
+			rep.Nontrivial(fmt.Sprintf("pool/%d", id))
+		}
+		cw.Add(fmt.Sprintf("(%d, CPool %s %s)", id, coqLedger(baseEntries(s)), hlib.CoqList(steps)), c)
 	case "worker":
 		db, closeFn := bks[2].open(tmp) // memorydb
 		wctx := mkCtxs()[0]
@@ -559,7 +747,18 @@ func main() {
 		if i%4 == 3 {
 			kind = "worker"
 		}
-		s := randomScenario(rng.Fork(), p, kind, rep)
+		if i%6 == 1 {
+			kind = "pool"
+		}
+		sr := rng.Fork()
+		var s *Scenario
+		if kind == "pool" {
+			s = randomScenario(sr, p, "proc", rep)
+			s.Tracks = true
+			s = poolify(sr, s, rep)
+		} else {
+			s = randomScenario(sr, p, kind, rep)
+		}
 		s.Name = fmt.Sprintf("random-%d", i)
 		for _, b := range s.Blocks {
 			rep.Count(fmt.Sprintf("block-txs:%d", len(b.Txs)))
